@@ -177,6 +177,7 @@ Inductive dcase :=
 | CRet (times : list Z) (epochs : list Z) (n : Z) (protected : list Z)   (* reserved: retention arithmetic *)
 | CPrefix (ops : list (list (Z * option Z)))                               (* batches in submission order (raw ops) *)
           (copies : list (nat * nat * list (Z * option Z)))               (* per online copy: batches returned before it began, submitted when it ended, contents of the destination *)
+          (final_lo : nat)                                                 (* batches known durable at the clean close (all of them with safe batches) *)
           (final : list (Z * option Z)).                                  (* contents after close and reopen *)
 
 (* spec-level judgement for indexes the trace model cannot follow from its initial state (an index
@@ -186,11 +187,11 @@ Definition docs_are_prefix (bs : list batch) (k : nat) (docs : list (Z * option 
   list_eqb pairZoZ_eqb (map (fun p => (fst p, replay (firstn k bs) (fst p))) docs) docs.
 
 Definition check_prefix (ops : list (list (Z * option Z))) (copies : list (nat * nat * list (Z * option Z)))
-                        (final : list (Z * option Z)) : bool :=
+                        (final_lo : nat) (final : list (Z * option Z)) : bool :=
   let bs := map collapse ops in
   forallb (fun c => let '(lo, hi, docs) := c in
                     existsb (fun k => docs_are_prefix bs k docs) (seq lo (S (hi - lo)))) copies
-  && docs_are_prefix bs (length bs) final.
+  && existsb (fun k => docs_are_prefix bs k final) (seq final_lo (S (length bs - final_lo))).
 
 Definition xinit : xs := mkXs dinit [] [] false None [].
 
@@ -202,7 +203,7 @@ Definition dcheck (c : dcase) : bool :=
       | (Some _, _) => false
       end
   | CRet _ _ _ _ => true
-  | CPrefix ops copies final => check_prefix ops copies final
+  | CPrefix ops copies flo final => check_prefix ops copies flo final
   end.
 
 Inductive dexpl :=
@@ -218,7 +219,7 @@ Definition dexplain (c : dcase) : dexpl :=
       EDisk r (project (root (d_core d))) (map br_epoch (d_bolt d)) (d_files d)
             (option_map br_epoch (d_tx d)) (covered d) (d_acked d) (length (x_eff x))
   | CRet _ _ _ _ => EDisk None [] [] [] None 0%nat [] 0%nat
-  | CPrefix ops copies _ =>
+  | CPrefix ops copies _ _ =>
       EDisk None [] [] [] None (length ops)
             (map (fun c => let '(lo, hi, docs) := c in
                            if existsb (fun k => docs_are_prefix (map collapse ops) k docs) (seq lo (S (hi - lo))) then 1%nat else 0%nat) copies)
